@@ -257,6 +257,13 @@ func c13Body(d c13Desc) func() {
 				})
 				vsched.Yield("wait-serving", "H", func() bool { return ll.Blocked() })
 				serving = true
+			case op == "badlisten":
+				// serving attempts that fail at once (strings the library refuses): the service stays as it was
+				for _, a := range []string{"bogus:x", "nocolon", "unix:"} {
+					if err := s.Listen(ctx, a, 0); err == nil {
+						fail("step %d: Listen(%q) returned nil", step, a)
+					}
+				}
 			case op == "shutdown":
 				s.Shutdown()
 				if serving {
@@ -692,6 +699,11 @@ func scenariosC13(tier string) []Scen {
 	rec([]string{"serve", "conn", "shutdown"}, false, true)
 	base = 4
 	rec([]string{"reg:a.b:d1", "serve", "conn", "shutdown"}, false, true)
+	// a service whose first serving attempts failed (refused address), then every continuation
+	base = 1
+	rec([]string{"badlisten"}, false, false)
+	base = 2
+	rec([]string{"reg:a.b:d1", "badlisten"}, false, false)
 	// a service that has already been through one serving round of either API, then every continuation
 	base = 2
 	rec([]string{"servel", "shutdown"}, false, false)
